@@ -4,14 +4,16 @@
 set -u
 NAME=$1; TIER=${2:-quick}
 PROP=${3:-${NAME:0:3}}
-WT=/tmp/seedrun
-exec 9>/tmp/seedrun.lock; flock 9   # one seed run at a time (shared scratch worktree)
+# four seed runs at a time: slot = checksum of the seed name mod 4; each slot has its own scratch worktree and /verif copy
+SLOT=$(( $(printf %s "$NAME" | cksum | cut -d' ' -f1) % 4 ))
+WT=/tmp/seedrun$SLOT
+exec 9>/tmp/seedrun.lock.$SLOT; flock 9
 if [ ! -d $WT ]; then git -C /repo worktree add -q --detach $WT HEAD || exit 1; fi
 git -C $WT checkout -q -- . ; git -C $WT clean -fdq; git -C $WT checkout -q --detach $(git -C /repo rev-parse HEAD)
 git -C $WT apply /verif/seeded/$NAME/patch.diff || { echo "patch does not apply to HEAD"; exit 2; }
 # the check runs from a scratch copy of /verif (generated Gen.v, .vo files, harness/go.mod and work/ are per copy), so a seed run
 # never disturbs checks of the unchanged tree that run at the same time
-SV=/tmp/seedrun_verif
+SV=/tmp/seedrun_verif$SLOT
 mkdir -p $SV
 rsync -a --delete --exclude work --exclude .git --exclude 'replays/*' --exclude '*.lock' /verif/ $SV/
 cd $SV
